@@ -191,11 +191,11 @@ theorem parseLargeC_eq (W r : Nat) (hr : 2 ≤ r) (hrW : r < 2 ^ W) (bytes : Lis
   unfold parseLargeC parseLarge
   simp only []
   apply parseDCC_eq W r hr hrW
-  apply parsePowers_covers _ _ (by have := ok.dpos; simp [parseChunkLen]; omega) _ _ (by simp)
+  apply parsePowers_covers _ _ (by have := ok.dpos; simp [parseChunkLen, Dashu.Gen.parse_CHUNK_LEN]; omega) _ _ (by simp)
   simp only [List.length_cons, List.length_nil, Nat.shiftLeft_eq]
   have h1 : bytes.length < 2 ^ bytes.length := Nat.lt_two_pow_self
   have h2 : 1 ≤ parseChunkLen * (radixInfo W r).dpw * 2 ^ (0 + 1) := by
-    have := ok.dpos; simp [parseChunkLen]; omega
+    have := ok.dpos; simp [parseChunkLen, Dashu.Gen.parse_CHUNK_LEN]; omega
   calc bytes.length ≤ 1 * 2 ^ bytes.length := by omega
     _ ≤ parseChunkLen * (radixInfo W r).dpw * 2 ^ (0 + 1) * 2 ^ bytes.length := Nat.mul_le_mul_right _ h2
 
